@@ -73,6 +73,14 @@ def cases(tier, seed):
         #  goes on from that result)
         yield {"problem": ps, "cfg": cfg, "chain": chain, "target_first": bool(chain and i % 5 == 3 and "scaler" not in cfg),
                "scaler_on_restart": float(np.exp(rng.uniform(np.log(1e-2), np.log(1e2)))) if (chain and i % 6 == 1 and "scaler" not in cfg) else None}
+    for i in range(200 if tier == "quick" else 5000):
+        # a regularisation / data path: the same two function objects serve one problem after the other, the data arrive through `args`, and
+        # each run is warm-started from the solution of the preceding one (often with no iteration left to do)
+        ps = gen.rand_spec(rng, ("qp", "qp_quartic", "qp_softplus", "rosenbrock", "styblinski_tang"), nmax=6, boxes=("none",), starts=("interior",))
+        cfg = {"jac": gen.pick(rng, ["callable", "callable", None]), "maxcor": int(rng.integers(1, 8)), "maxls": 20, "maxiter": int(gen.pick(rng, [0, 0, 1, 3, 10])),
+               "maxfun": 15000, "ftol": 0.0, "gtol": float(gen.pick(rng, [1e-8, 1e-3, 1e3])), "cb": "never", "via_args": True}
+        yield {"problem": ps, "cfg": cfg, "chain": [int(rng.integers(1, 4))] if i % 3 == 0 else [], "target_first": False, "scaler_on_restart": None,
+               "after_twin": int(rng.integers(0, 2**31 - 1))}
 
 
 _AD = [0, False]
@@ -163,6 +171,12 @@ def run(spec):
     install_ad_counter()
     base_fd = 0
     kept = []  # results the user keeps: they must stay coherent whatever is done with them later
+    if spec.get("after_twin") is not None:
+        twin = gen.make_problem(dict(spec["problem"], seed=int(spec["after_twin"])))
+        t0 = probes.run_min(twin, dict(cfg, maxiter=40))
+        if t0.exc is None:
+            x0 = np.array(t0.result.x, dtype=float, copy=True)  # warm start from the preceding problem's solution
+            out.count("runs_warm_started_from_the_result_of_another_problem_served_by_the_same_functions")
     for step in range(1 + len(spec["chain"])):
         c = dict(cfg, maxiter=maxiter, x0_same_object=True)
         scaler_leg = bool(spec.get("scaler_on_restart") and step == 1)
